@@ -124,7 +124,10 @@ PROPERTIES = {
                         "because message ('strictly positive') and code (rejects only negatives) disagree",
                         "the 'values govern the run' clause is decided by the solver-level engines that feed their parameters through XML (C19 sub xml)"],
         "jobs": [J("C18_params", quick={"cases": 600, "shards": 8, "max_size": 60}, thorough={"cases": 30000, "shards": 16, "max_size": 100},
-                   env={"VERIF_TMP": "/verif/build/run"})],
+                   env={"VERIF_TMP": "/verif/build/run"}),
+                 # end-to-end clause: dt / duration / sampling period written in XML, parsed by the real reader, must govern a real run
+                 J("C19_outputs", quick={"cases": 8, "shards": 4, "max_size": 40}, thorough={"cases": 200, "shards": 8, "max_size": 60},
+                   env={"VERIF_TMP": "/verif/build/run"}, prefix=True)],
     },
     "C06": {
         "rule": "rapidcheck: tissues of 2-7 cells (chain, cluster, cells inside an ECM shell, nucleus inside a cell, apart) of mixed classes, "
@@ -211,6 +214,20 @@ PROPERTIES = {
                  J("C13_reconstruct", subs=["poisson"], quick={"cases": 25, "shards": 2, "max_size": 40}, thorough={"cases": 500, "shards": 8, "max_size": 60},
                    env={"VERIF_TMP": "/verif/build/run"}, threads=4),
                  J("C13_reconstruct", subs=["holes"], quick={"cases": 400, "shards": 2, "max_size": 40}, thorough={"cases": 20000, "shards": 4, "max_size": 60},
+                   env={"VERIF_TMP": "/verif/build/run"})],
+    },
+    "C19": {
+        "rule": "rapidcheck: (dt, S, T) rendered in an XML file and read by the real reader, ratio classes {S == dt, S = k dt, irrational, S "
+                "slightly above dt, S = 10..60 dt}, 1-130 iterations, 1-4 non-interacting cells, 0-4 forced removals / divisions at generated "
+                "iterations, statistics to file or string, solver stepped with run_iteration() (3/4) or run() (1/4), 1-4 threads. "
+                "Non-trivial = >= 3 file pairs and (a population change between two recorded iterations, or more than 50 iterations, or run()); "
+                "distinct = hash of the case.",
+        "min_nontrivial": 20,
+        "assumptions": ["'K within one of T/S+1' is read on integers: |K - (floor(T/S)+1)| <= 1",
+                        "rows of a recorded iteration = cells alive after the iteration plus the cells removed at its end (the record is written "
+                        "before the removal); values are compared for the survivors",
+                        "the cells listed in a mesh file are those alive at the start of the iteration that wrote it"],
+        "jobs": [J("C19_outputs", quick={"cases": 20, "shards": 16, "max_size": 40}, thorough={"cases": 1000, "shards": 16, "max_size": 60},
                    env={"VERIF_TMP": "/verif/build/run"})],
     },
 }
